@@ -340,6 +340,9 @@ func main() {
 	famStates, famTransitions, famSeq, famEvents := 0, 0, 0, 0
 	famClosed := true
 	for _, f := range families {
+		if f.ThoroughOnly && c.Tier != "thorough" {
+			continue
+		}
 		fa := familyAlphabet(f)
 		famEvents += len(fa)
 		r.alpha, r.universe = fa, probeUniverse(fa)
@@ -349,7 +352,7 @@ func main() {
 		}
 		fs, ft := 0, 0
 		for _, cfg := range configs {
-			if !cfg.Family {
+			if !cfg.Family || (f.Heavy && c.Tier != "thorough" && !cfg.HeavyQuick) {
 				continue
 			}
 			st := r.bfs(cfg, famDepth)
@@ -368,7 +371,7 @@ func main() {
 		}
 		famStates += fs
 		famTransitions += ft
-		fmt.Printf("family %-9s texts=%d events=%-3d states=%-5d transitions=%-6d (%s)\n", f.ID, len(f.Texts), len(fa), fs, ft, f.Why)
+		fmt.Printf("family %-9s texts=%d bytes=%v events=%-3d states=%-5d transitions=%-6d (%s)\n", f.ID, len(f.Texts), f.Sizes, len(fa), fs, ft, f.Why)
 	}
 	states += famStates
 	transitions += famTransitions
@@ -437,7 +440,8 @@ func main() {
 		"texts":               texts,
 		"near_equal_families": families,
 		"family_bfs_depth":    famDepth,
-		"family_configs":      "those with family=true; plus all sequences of length<=2 of the family alphabet on the ones with a query cache",
+		"family_configs":      "those with family=true (long-text families in the quick tier: those with heavy_families_in_quick; the thorough_only family only in thorough); plus all sequences of length<=2 of the family alphabet on the ones with a query cache",
+		"exact_key_oracle":    "on every judged step every Get/Add gqlgen makes on the recording caches is compared byte for byte with the request: APQ key == client hash, APQ value == client text, query-cache key == text being run, stored document == parse(text)",
 		"configs":             configs,
 		"state_key":           "APQ cache entries (+LRU recency order) + query-document cache keys (+order)",
 		"exhaustive_means":    "every event of the alphabet applied to every state first reached at depth < bfs_depth, and every core-alphabet sequence of length <= all_sequences_len; both on every config",
